@@ -7,34 +7,46 @@ def pvOf (j : Json) : PV := match j with | .null => .none | x => .obj (jN x)
 def optPvOf (j : Json) : Option PV := match j with | .str _ => none | x => some (pvOf x)
 def pvJ : PV → Json | .none => Json.null | .obj i => jNat i
 
-/-- a recording validator: {"rej": [ids], "crash": [ids], "map": "mul"|"same"|"none"|"const", "k": n}; None passes through -/
-def stepOf (j : Json) : Step := fun v =>
+/-- a recording validator: {"rej": [ids], "crash": [ids], "map": "mul"|"same"|"none"|"const", "k": n, "pn": name?, "wrap": [names]?};
+    None passes through.  `pn` is the `parameter_name` its own `ValidatorException` carries (absent: the default `''` of
+    `ValidatorException.__init__`); `wrap` lists, from the inside out, the names of the `validate_param(value, parameter_name=…)`
+    delegations through which the validator is reached. -/
+def coreStepOf (j : Json) : Step := fun v =>
   match v with
   | .none => .ok .none
   | .obj i =>
-    if ((jL (jF j "rej")).map jN).contains i then .error .rejected
+    if ((jL (jF j "rej")).map jN).contains i then
+      .error (.rejected (validatorExceptionStoresName ((jOptN (jF j "pn")).getD validatorExceptionDefaultName)))
     else if ((jL (jF j "crash")).map jN).contains i then .error (.crash i)
     else match jS (jF j "map") with
       | "mul" => .ok (.obj (i * 8 + jN (jF j "k")))
       | "none" => .ok .none
       | "const" => .ok (.obj (jN (jF j "k")))
       | _ => .ok (.obj i)
+def stepOf (j : Json) : Step := ((jL (jF j "wrap")).map jN).foldl validateParam (coreStepOf j)
 
 /-- a conversion table [[in, out | "REJ"], …]; values outside the table are rejected -/
 def convOf (j : Json) : Option Step :=
   match j with
   | .arr rows => some fun v =>
     match v with
-    | .none => .error .rejected
+    | .none => .error (.rejected emptyName)
     | .obj i =>
       match rows.toList.find? (fun r => jN (jAt r 0) == i) with
-      | some r => (match jAt r 1 with | .str _ => .error .rejected | o => .ok (pvOf o))
-      | none => .error .rejected
+      | some r => (match jAt r 1 with | .str _ => .error (.rejected emptyName) | o => .ok (pvOf o))
+      | none => .error (.rejected emptyName)
   | _ => none
 
+/-- a Parameter; its name is a non-empty string (the harness never declares `Parameter(name='')`; such a description is
+    answered with a Parameter called `zz`, which the correspondence check would report) -/
 def paramOf (j : Json) : VParam :=
-  { name := jN (jF j "name"), requiredArg := jB (jF j "required"), dflt := optPvOf (jF j "dflt"), ext := optPvOf (jF j "ext"),
-    conv := convOf (jF j "conv"), validators := (jL (jF j "vals")).map stepOf, flaskJson := jB (jF j "flaskJson") }
+  let n := jN (jF j "name")
+  if h : (n != emptyName) = true then
+    { name := n, requiredArg := jB (jF j "required"), dflt := optPvOf (jF j "dflt"), ext := optPvOf (jF j "ext"),
+      conv := convOf (jF j "conv"), validators := (jL (jF j "vals")).map stepOf, flaskJson := jB (jF j "flaskJson"), nameNonEmpty := h }
+  else
+    { name := 6, requiredArg := jB (jF j "required"), dflt := optPvOf (jF j "dflt"), ext := optPvOf (jF j "ext"),
+      conv := convOf (jF j "conv"), validators := (jL (jF j "vals")).map stepOf, flaskJson := jB (jF j "flaskJson") }
 
 def sparamOf (j : Json) : SParam := { name := jN (jF j "name"), dflt := optPvOf (jF j "dflt") }
 /-- `varName` (absent: `args`) is the name of the VAR_POSITIONAL parameter, `tup` the identity the harness gives the tuple
